@@ -388,6 +388,9 @@ func (hp *HTTPProxy) pacProxy(r *http.Request) (*url.URL, error) {
 	}
 
 	proxyURL := p.URL()
+	if proxyURL == nil {
+		return nil, nil // DIRECT
+	}
 
 	// do not attach proxy credentials if we are using Kerberos
 	// to auth upstream proxy and clear existing auth data
